@@ -11,12 +11,17 @@ What is mirrored (function by function):
   `AttesterDutiesCache`, `ProposerDutiesCache`, `SyncCommDutiesCache`) is an oracle `BN`: the
   `k`-th call to an endpoint returns an error (`none`) or a list whose entries may be nil
   pointers (`none`).  The call counters `nv na np ns` are ghost state.
-* `resolveActiveValidators`, `resolveDuties`, `resolveAttDuties`, `resolveProDuties`,
-  `resolveSyncCommDuties`, `setDutyDefinition` (first wins), `trimDuties`,
-  `HandleChainReorgEvent`, `scheduleSlot` (resolve when `resolvedEpoch != epoch`; loop over
-  `core.AllDutyTypes()`; the next epoch is resolved *inside* that loop, once per duty type that
-  has a definition set in the last slot of an epoch), `delaySlotOffset` + `slotOffsets`
-  (`notBefore`), `newSlotTicker` (`tickerStep`).
+* `resolveActiveValidators` (`activeVals`), `resolveDuties`, `resolveAttDuties`, `resolveProDuties`,
+  `resolveSyncCommDuties` (their loops share one shape, `resolveLoop`: skip earlier slots, skip
+  validators that are not active cluster validators, error on a pubkey mismatch with everything
+  stored so far kept; the attester loop stores the aggregator definition only when the attester
+  definition was newly set, `attBody`), `setDutyDefinition` (first wins), `trimDuties`
+  (`trimBack`: `epoch - 3` on uint64), `HandleChainReorgEvent`, `scheduleSlot` (`preResolve`:
+  resolve when `resolvedEpoch != epoch`, with retry at the next slot as a consequence; `trigLoop`:
+  loop over `core.AllDutyTypes()`; the next epoch is resolved *inside* that loop, once per duty
+  type that has a definition set in the last slot of an epoch — so not at all when that slot has
+  no duty), `delaySlotOffset` + `slotOffsets` (`notBefore`), `newSlotTicker` (`tickerStep`, at
+  most two emissions per clock advance; `Sys.pump`).
 
 Not modelled: goroutine timing of the asynchronous trigger (`delayFunc` is the identity here:
 the trigger carries its not-before instant), builder registrations, metrics, the
